@@ -14,9 +14,16 @@ from .common import call, call_func, driver_interp, new_obj
 class Token(AbsVal):
     """An opaque value with identity (a library / a text) used to follow data flow."""
 
+    log = None  # set per scenario: derived uses of a library token are recorded, never trusted
+
     def __init__(self, name, typ="object"):
         self.name = name
         self.typ = typ
+
+    def get_attr(self, it, name):
+        if self.typ == "object" and not name.startswith("__"):
+            return Token(f"{self.name}.{name}")
+        return NotImplemented
 
     def __repr__(self):
         return f"<{self.name}>"
@@ -26,6 +33,16 @@ class Token(AbsVal):
             return BuiltinType(self.typ)
         if name in ("__deepcopy__", "__copy__"):
             return Token(f"copy({self.name})", self.typ)
+        if self.typ == "str":
+            if name == "__str__":
+                return self
+            if name in ("strip", "lstrip", "rstrip", "lower", "upper", "casefold", "replace", "expandtabs", "title", "capitalize",
+                        "swapcase", "removeprefix", "removesuffix", "translate", "encode", "format", "zfill", "center", "ljust", "rjust"):
+                # a derived text: no longer the text that was given
+                return Token(f"{self.name}.{name}()", "str")
+        if self.typ == "object" and (name == "__call__" or not name.startswith("__")):
+            # a library used directly (added to, merged, ...): a derived value, no longer the one that was given
+            return Token(f"{self.name}.{name}(...)")
         return NotImplemented
 
 
@@ -149,6 +166,37 @@ def make_intrinsics(P: Program, log):
         return out
     intr[w.qualname] = write
     return intr
+
+
+def library_argument_flow(P: Program):
+    """parse_string(text, parse_stack=[], library=L): the splitter must split *into* L (duplicate detection against the blocks
+    L already holds happens in Library.add as the splitter adds).  Returns a list of problems."""
+    fn = P.func("entrypoint", "parse_string")
+
+    def run1(ctx):
+        log = []
+        it = driver_interp(P, ctx, "entrypoint", make_intrinsics(P, log), Hooks(log))
+        try:
+            out = call_func(it, fn, Token("input-text", "str"), parse_stack=AList([]), library=Token("given-library"))
+            return ("return", out, log)
+        except Raised as r:
+            return ("raise", r, log)
+        except (Unsupported, LoopBound) as u:
+            return ("unsupported", str(u), log)
+    probs = []
+    res = explore(run1, 50)
+    for ctx, (kind, out, log) in res:
+        if kind == "unsupported":
+            raise AnalysisError(f"analyser cannot follow parse_string: {out}")
+        spl = [e for e in log if e[0] == "split"]
+        if kind == "raise":
+            probs.append(f"raises {out.cls_name()}")
+        elif len(spl) != 1 or getattr(spl[0][2], "name", None) != "given-library":
+            probs.append("the blocks are not split into the library given as `library=` (they are merged afterwards or not at all: "
+                         "duplicates are then judged against the wrong first block)")
+        elif out is not spl[0][3]:
+            probs.append(f"returns {out!r} instead of the splitter's result")
+    return probs, len(res)
 
 
 def run(P: Program, rep: Report):
@@ -354,6 +402,25 @@ def run(P: Program, rep: Report):
         return None
     scenario("parse_file", pf_args, "stack+encoding", "C20.R5", judge_pf)
 
+    def norm_enc(e):
+        return e.lower().replace("_", "-").replace("utf8", "utf-8") if isinstance(e, str) else e
+    for enc in ("utf-8", "UTF8", "utf_8", "latin-1", None):
+        def pf_args3(log, enc=enc):
+            kw = {"parse_stack": AList([Probe("p1", log)])}
+            if enc is not None:
+                kw["encoding"] = enc
+            return [Token("path", "str")], kw, None
+
+        def judge_pf3(kind, out, log, extra, enc=enc):
+            if kind == "raise":
+                return f"raises {out.cls_name()}"
+            op = [e for e in log if e[0] == "open"]
+            want = norm_enc(enc or "utf-8")
+            if len(op) != 1 or norm_enc(op[0][3]) != want:
+                return f"parse_file(encoding={enc!r}) decodes the file with {op[0][3] if op else None!r} (a different codec, e.g. one that drops a leading BOM, changes the decoded content)"
+            return None
+        scenario("parse_file", pf_args3, f"concrete-encoding-{enc}", "C20.R5", judge_pf3)
+
     def pf_args2(log):
         return [Token("path", "str")], {"append_middleware": AList([Probe("p1", log)])}, None
 
@@ -425,23 +492,29 @@ def run(P: Program, rep: Report):
         ("str", lambda b: "ab", "TypeError"),
         ("list-with-nonblock", lambda b: AList([b[3], 7]), "TypeError"),
         ("generator", lambda b: OneShot([b[3]]), "TypeError"),
+        ("failed-block-removed", lambda b: None, lambda b: []),
+        ("failed-block-replaced", lambda b: AList([b[3], b[4]]), lambda b: [b[3], b[4]]),
     ]
     for label, mkres, expect in mk_cases:
-        def run2(ctx, mkres=mkres):
+        target = 4 if label.startswith("failed-block") else 2
+
+        def run2(ctx, mkres=mkres, target=target):
             it = driver_interp(P, ctx, "middlewares.middleware")
             mkb = lambda cls, *a, **k: new_obj(it, P, "model", cls, *a, **k)
             blocks = [mkb("Entry", entry_type="a", key="k1", fields=AList([])), mkb("String", key="s", value="v"),
                       mkb("Preamble", value="p"), mkb("ExplicitComment", comment="c"), mkb("ImplicitComment", comment="i"),
                       mkb("Entry", entry_type="b", key="k2", fields=AList([]))]
+            failed = mkb("ParsingFailedBlock", error=ExcVal("ValueError", ["e"]), start_line=3, raw="@x{")
+            blocks.append(failed)
             lib = new_obj(it, P, "library", "Library")
-            call(it, lib, "add", AList(blocks[:3]))
+            call(it, lib, "add", AList(blocks[:3] + [failed]))
             mw = AObj(bm)
             mw.attrs["_allow_inplace_modification"] = True
             calls = []
 
             def tb(it_, fn, args, kwargs, node):
                 calls.append(args[0])
-                return mkres(blocks) if len(calls) == 2 else args[0]
+                return mkres(blocks) if len(calls) == target else args[0]
             it.intr[bm.methods["transform_block"].qualname] = tb
             try:
                 out = call(it, mw, "transform", lib)
@@ -461,11 +534,16 @@ def run(P: Program, rep: Report):
             if kind == "raise":
                 probs.append(f"per-block result '{label}' raises {out.cls_name()}")
                 continue
-            want = [blocks[0]] + expect(blocks) + [blocks[2]]
+            want = [blocks[0]] + expect(blocks) + [blocks[2], blocks[6]] if target == 2 else blocks[:3] + expect(blocks)
             got = it.get_attr(out, "blocks") if isinstance(out, AObj) else None
             gl = got.items if isinstance(got, AList) else None
             if gl is None or len(gl) != len(want) or any(a is not b for a, b in zip(gl, want)):
                 probs.append(f"per-block result '{label}': resulting blocks {gl!r}, expected {want!r} (in place of the transformed block)")
-            if calls != blocks[:3]:
-                probs.append("transform_block is not called once per block in order")
+            if len(calls) != 4 or any(a is not b for a, b in zip(calls, blocks[:3] + [blocks[6]])):
+                probs.append("transform_block is not called once per block (failed blocks included) in order")
         rep.check(not probs, "C20.R6", f"block-protocol:{label}", bm.methods["transform"].loc, probs[0] if probs else "")
+
+    rep.rule("C20.R9", "no unsafe memoisation in the modules this property rests on: a function decorated with lru_cache / cache / "
+                      "cached_property neither takes nor returns a mutable object (else later calls see stale or shared results)")
+    from . import common as _common
+    _common.no_unsafe_memoisation(P, rep, "C20.R9", ['entrypoint', 'middlewares.parsestack', 'middlewares.middleware'])
